@@ -1,12 +1,12 @@
 package main
 
 import (
-	"strings"
-	"encoding/json"
-	"unsafe"
 	"bytes"
+	"encoding/json"
 	"fmt"
+	"strings"
 	"sync"
+	"unsafe"
 
 	square "github.com/celestiaorg/go-square/v2"
 	"github.com/celestiaorg/go-square/v2/inclusion"
